@@ -3,8 +3,10 @@ package c15
 
 import (
 	"fmt"
+	"math/rand"
 	"net/netip"
 	"strings"
+	"sync"
 
 	"github.com/irai/packet"
 	"verif/harness/core"
@@ -42,12 +44,27 @@ var (
 //	ip4app <hdr20>                 same through AppendPayload
 //	icmp4cks <msg>                 Session.icmp4SendPacket, ICMP part of the emitted frame
 //	icmp6cks <src16> <dst16> <msg> Session.icmp6SendPacket, ICMP part of the emitted frame
+//	par <seed> <goroutines> <iters> Checksum / IP4.SetPayload / IP4.AppendPayload / IP4.CalculateChecksum called from several
+//	                               goroutines at once, each on buffers of its own: the routines are functions of their
+//	                               arguments, so every result must equal the one the same call gave sequentially (a shared
+//	                               scratch buffer or cached state inside the library shows up here; no model counterpart)
 func Eval(c *core.Ctx, line string) *core.Case {
 	f := strings.Fields(line)
 	if len(f) < 2 {
 		return nil
 	}
 	switch f[0] {
+	case "par":
+		if len(f) != 4 {
+			return nil
+		}
+		var seed, g, iters int
+		fmt.Sscan(f[1], &seed)
+		fmt.Sscan(f[2], &g)
+		fmt.Sscan(f[3], &iters)
+		bad := parallelPurity(int64(seed), g, iters)
+		return &core.Case{Line: line, Impl: "par", Trivial: true, Cmp: func(a, b string) bool { return true },
+			Oracle: func() (string, string) { return bad, "" }}
 	case "cks":
 		b := core.UnHex(f[1])
 		impl := packet.Checksum(b)
@@ -159,6 +176,83 @@ func Eval(c *core.Ctx, line string) *core.Case {
 	return nil
 }
 
+// parallelPurity: g goroutines, each with its own PRNG stream and its own buffers, run the checksum routines iters times;
+// every call is made twice - once inside the concurrent phase, once afterwards sequentially - and the results must agree
+// and must verify under the independent RFC 1071.  Returns "" or the first difference.
+func parallelPurity(seed int64, g, iters int) string {
+	type rec struct {
+		hdr  []byte // the 20-byte header handed to SetPayload / AppendPayload
+		app  bool
+		out  []byte // completed header observed in the concurrent phase
+		data []byte // input of Checksum
+		cks  uint16
+		calc uint16 // IP4.CalculateChecksum of the completed header
+	}
+	run := func(r *rec) {
+		plen := (int(r.hdr[2])<<8 | int(r.hdr[3])) - 20
+		buf := make([]byte, 20, 20+plen)
+		copy(buf, r.hdr)
+		payload := make([]byte, plen)
+		if r.app {
+			p, err := packet.IP4(buf).AppendPayload(payload, r.hdr[9])
+			if err != nil {
+				r.out = nil
+				return
+			}
+			r.out = append([]byte{}, p[:20]...)
+		} else {
+			r.out = append([]byte{}, packet.IP4(buf).SetPayload(payload, r.hdr[9])[:20]...)
+		}
+		r.calc = packet.IP4(r.out).CalculateChecksum()
+		r.cks = packet.Checksum(r.data)
+	}
+	all := make([][]rec, g)
+	var wg sync.WaitGroup
+	start := make(chan struct{})
+	for i := 0; i < g; i++ {
+		rnd := rand.New(rand.NewSource(seed*1000 + int64(i)))
+		recs := make([]rec, iters)
+		for k := range recs {
+			h := make([]byte, 20)
+			rnd.Read(h)
+			h[0], h[2], h[3] = 0x45, 0, byte(20+rnd.Intn(64))
+			d := make([]byte, rnd.Intn(120))
+			rnd.Read(d)
+			recs[k] = rec{hdr: h, app: k%2 == 0, data: d}
+		}
+		all[i] = recs
+		wg.Add(1)
+		go func(recs []rec) {
+			defer wg.Done()
+			defer func() { recover() }()
+			<-start
+			for k := range recs {
+				run(&recs[k])
+			}
+		}(recs)
+	}
+	close(start)
+	wg.Wait()
+	for i := range all {
+		for k := range all[i] {
+			c := all[i][k]
+			seq := rec{hdr: c.hdr, app: c.app, data: c.data}
+			run(&seq)
+			switch {
+			case string(seq.out) != string(c.out):
+				return fmt.Sprintf("IPv4 header completed by SetPayload/AppendPayload while %d goroutines encode in buffers of their own differs from the same call made alone: concurrent %s alone %s (verifies=%v / %v)", g, core.Hex(c.out), core.Hex(seq.out), verifies(c.out), verifies(seq.out))
+			case c.out != nil && !verifies(c.out):
+				return "IPv4 header completed concurrently does not sum to zero under RFC 1071: " + core.Hex(c.out)
+			case seq.calc != c.calc:
+				return fmt.Sprintf("IP4.CalculateChecksum of %s gave %#04x concurrently and %#04x alone", core.Hex(c.out), c.calc, seq.calc)
+			case seq.cks != c.cks || c.cks != swap(rfc1071(c.data)):
+				return fmt.Sprintf("Checksum(%s) gave %#04x concurrently, %#04x alone, RFC 1071 %#04x", core.Hex(c.data), c.cks, seq.cks, swap(rfc1071(c.data)))
+			}
+		}
+	}
+	return ""
+}
+
 func add(c *core.Ctx, class, line string) {
 	if cs := Eval(c, line); cs != nil {
 		cs.Class = class
@@ -229,6 +323,9 @@ func Gen(c *core.Ctx) {
 			op = "ip4app "
 		}
 		add(c, "ip4hdr", op+core.Hex(h))
+	}
+	for k := 0; k < c.Scale(4, 40); k++ {
+		add(c, "parallel", fmt.Sprintf("par %d 8 %d", c.Rnd.Intn(1<<30), c.Scale(4000, 20000)))
 	}
 	ff := make([]byte, 20)
 	add(c, "ip4hdr-edge", "ip4set "+core.Hex(ff))
